@@ -772,6 +772,7 @@ func cmdCheck(args []string) int {
 	seenSig := map[string]bool{}
 	knownPrinted := map[string]bool{}
 	exit := 0
+	replayTrouble := false
 	newViolations := 0
 	for _, fv := range total.Own {
 		if seenSig[fv.Violation.Sig] {
@@ -821,8 +822,11 @@ func cmdCheck(args []string) int {
 			}
 		}
 		if code != 1 {
+			// not reported as a violation. If other violations of this run replay exactly, the verdict stands on them
+			// (exit 1); if none does, the check ends as harness trouble (exit 2)
 			fmt.Printf("REPLAY-MISMATCH: fresh-process replay of %s did not reproduce (exit %d): %s\n", final, code, tail(out, 1500))
-			return 2
+			replayTrouble = true
+			continue
 		}
 		fmt.Printf("VIOLATION property=%s replay=%s\n", prop, final)
 		fmt.Printf("  oracle=%s sig=%s (in %d of %d runs)\n  %s\n", fv.Violation.Oracle, fv.Violation.Sig, total.OwnSigs[fv.Violation.Sig], total.Runs, indent(fv.Violation.Detail))
@@ -896,6 +900,9 @@ func cmdCheck(args []string) int {
 	if len(nt) < 2 && exit == 0 {
 		fmt.Println("check: fewer than 2 non-trivial runs: the workload did not reach the property")
 		return 2
+	}
+	if exit == 0 && replayTrouble {
+		return 2 // something was seen, nothing could be reproduced: harness trouble, not a verdict
 	}
 	return exit
 }
